@@ -218,7 +218,7 @@ int main()
         else if (op == "fail") { long k; is >> k; U.fail_at = U.calls + k; res = "set"; }
         else if (op == "failfrom") { long k; is >> k; U.fail_from = k < 0 ? -1 : U.calls + k; res = "set"; }
         else if (op == "mv") { t->move_construct(); res = "moved"; }
-        else if (op == "ma") { std::string w; is >> w; t->move_assign(w == "used"); res = "assigned"; }
+        else if (op == "ma") { std::string w; is >> w; U.fail_at = -1; t->move_assign(w == "used"); res = "assigned"; }
         else if (op == "sweep") { sweep("sweep"); res = "swept"; }
         else if (op == "destroy") { sweep("before-destroy"); t->destroy(); std::printf("destroy = ok |%s | leaks=%ld\n", U.take().c_str(), hc().leak); break; }
         else { std::printf("? %s\n", line.c_str()); continue; }
@@ -227,6 +227,6 @@ int main()
         if (opno % 16 == 0) sweep("periodic");
         std::fflush(stdout);
     }
-    std::printf("end live_blocks=%zu errors=%ld\n", U.live_count(), U.errors);
+    std::printf("end live_blocks=%zu errors=%ld stale_writes=%zu\n", U.live_count(), U.errors, U.stale_writes());
     return 0;
 }
